@@ -557,12 +557,17 @@ def main(tier, seed, replay=None):
             alt += [np.int64, np.uint8 if (S.data.min() >= 0 and S.data.max() <= 255) else np.int16]
         flat = lambda sn: np.concatenate([np.ravel(np.asarray(x, dtype=np.float64)) for x in sn] + [[0.0]])
         bad_dt = None
+        # (a Gaussian component that has collapsed onto a few data points — standard deviation below 1e-2 — makes the
+        # responsibilities ill-conditioned: double and single precision then legitimately part ways; such runs are not compared)
+        collapsed = any(kind_of(o) == "gauss" and float(np.ravel(sn[j])[1]) < 1e-2 for sn in snaps for j, o in enumerate(objs))
+        if collapsed:
+            alt = []; dist["dtype_twins_skipped_collapsed"] = dist.get("dtype_twins_skipped_collapsed", 0) + 1
         for dt in alt:
             try:
                 snaps3, batches3, _, _, _ = run_em(root, S.data.astype(dt), n_iter, bp, eta, rinit, em_seed, one_call=True)
                 if len(snaps3) != len(snaps) or len(batches3) != len(batches) or any(not np.array_equal(a_, b_) for a_, b_ in zip(batches, batches3)) or any(
-                        not np.allclose(flat(a), flat(b), rtol=2e-3, atol=1e-5) for a, b in zip(snaps, snaps3)):
-                    k3 = next((k for k, (a, b) in enumerate(zip(snaps, snaps3)) if not np.allclose(flat(a), flat(b), rtol=2e-3, atol=1e-5)), None)
+                        not np.allclose(flat(a), flat(b), rtol=2e-2, atol=1e-3) for a, b in zip(snaps, snaps3)):
+                    k3 = next((k for k, (a, b) in enumerate(zip(snaps, snaps3)) if not np.allclose(flat(a), flat(b), rtol=2e-2, atol=1e-3)), None)
                     bad_dt = dict(dtype=np.dtype(dt).name, first_differing_state=k3,
                                   as_float32=None if k3 is None else snaps[k3], as_this_dtype=None if k3 is None else snaps3[k3])
             except Exception as e:
